@@ -107,12 +107,24 @@ impl Shard {
     }
 
     /// Returns whether the file `name` exists in this shard.
-    fn file_exists(&mut self, name: &str) -> bool {
+    ///
+    /// Only a missing file means "does not exist": any other failure
+    /// (including a stale handle, which lookups treat as a miss) is
+    /// reported to the caller.  Treating, e.g., an I/O error as
+    /// absence would send the write to the other shard and leave a
+    /// stale duplicate behind in this one.
+    fn file_exists(&mut self, name: &str) -> Result<bool> {
+        crate::cache_dir::validate_file_name(name)?;
+
         self.shard_dir.push(name);
         let result = std::fs::metadata(&self.shard_dir);
         self.shard_dir.pop();
 
-        result.is_ok()
+        match result {
+            Ok(_) => Ok(true),
+            Err(e) if e.kind() == std::io::ErrorKind::NotFound => Ok(false),
+            Err(e) => Err(e),
+        }
     }
 }
 
@@ -324,7 +336,7 @@ impl Cache {
 
         // If the file does not already exist in the secondary shard,
         // use the primary.
-        if !shard.file_exists(key.name) {
+        if !shard.file_exists(key.name)? {
             shard = shard.replace_shard(h1);
         }
 
@@ -361,7 +373,7 @@ impl Cache {
 
         // If the file does not already exist in the secondary shard,
         // use the primary.
-        if !shard.file_exists(key.name) {
+        if !shard.file_exists(key.name)? {
             shard = shard.replace_shard(h1);
         }
 
